@@ -18,6 +18,7 @@ import (
 	"sort"
 	"strconv"
 	"strings"
+	"time"
 )
 
 type stream struct {
@@ -32,19 +33,41 @@ var streams = map[string]*stream{}
 
 func register(s *stream) { streams[s.name] = s }
 
-func runCase(line string) (out string) {
+var hangs int
+
+// runCase runs one case under a watchdog: an operation of the implementation that never returns (a loop that does not
+// terminate, a lock that is never released) must not stall the whole run. The case is reported as an oracle failure and
+// the run goes on (the stuck goroutine is left behind; after a few of them the remaining cases are skipped).
+func runCase(line string) string {
 	fields := strings.Split(line, "\t")
 	s, ok := streams[fields[0]]
 	if !ok {
 		return "I=unknown-stream"
 	}
-	defer func() {
-		if p := recover(); p != nil {
-			out = "I=PANIC\tO=harness-level panic: " + strings.ReplaceAll(fmt.Sprint(p), "\n", " ") +
-				" @ " + strings.ReplaceAll(string(debug.Stack()), "\n", " | ")
-		}
+	if hangs >= 3 {
+		return "I=SKIPPED\tO=skipped: three earlier cases of this run did not finish"
+	}
+	limit := 300 * time.Second
+	if v, err := strconv.Atoi(os.Getenv("VERIF_CASE_TIMEOUT_S")); err == nil && v > 0 {
+		limit = time.Duration(v) * time.Second
+	}
+	done := make(chan string, 1)
+	go func() {
+		defer func() {
+			if p := recover(); p != nil {
+				done <- "I=PANIC\tO=harness-level panic: " + strings.ReplaceAll(fmt.Sprint(p), "\n", " ") +
+					" @ " + strings.ReplaceAll(string(debug.Stack()), "\n", " | ")
+			}
+		}()
+		done <- s.run(fields)
 	}()
-	return s.run(fields)
+	select {
+	case out := <-done:
+		return out
+	case <-time.After(limit):
+		hangs++
+		return fmt.Sprintf("I=HANG\tO=the case did not finish within %v: an operation of the implementation does not return", limit)
+	}
 }
 
 func main() {
